@@ -42,3 +42,76 @@ func VerifC07ParseAnyMax() {
 	}
 	vapi.Reach("c07-parse-anymax")
 }
+
+// c07Feed plays the client receive loop (verified on its own in package transport) over the
+// parser the client really installs - (*AdapterProxy).ParsePackage - for one connection: a fresh
+// buffer, the stream delivered in the given chunks.
+func c07Feed(adp *AdapterProxy, stream []byte, segmented bool) (pkts [][]byte, protoErr bool) {
+	var cur []byte
+	pos := 0
+	for pos < len(stream) {
+		n := len(stream) - pos
+		if segmented {
+			k := vapi.U64("chunk", 8)
+			vapi.Assume(vapi.And(k >= 1, k <= uint64(len(stream)-pos)))
+			n = int(vapi.Concrete(k))
+		}
+		cur = append(cur, stream[pos:pos+n]...)
+		pos += n
+		for {
+			l, st := adp.ParsePackage(cur)
+			if st == transport.PackageLess {
+				break
+			}
+			if st == transport.PackageFull {
+				p := make([]byte, l)
+				copy(p, cur[:l])
+				pkts = append(pkts, p)
+				cur = cur[l:]
+				if len(cur) > 0 {
+					continue
+				}
+				cur = nil
+				break
+			}
+			return pkts, true
+		}
+	}
+	return pkts, false
+}
+
+func c07RefPkts(stream []byte, max int) (pkts [][]byte) {
+	pos := 0
+	for len(stream)-pos >= 4 {
+		l := int(uint32(stream[pos])<<24 | uint32(stream[pos+1])<<16 | uint32(stream[pos+2])<<8 | uint32(stream[pos+3]))
+		if l < 4 || l > max || len(stream)-pos < l {
+			return
+		}
+		pkts = append(pkts, stream[pos:pos+l])
+		pos += l
+	}
+	return
+}
+
+// VerifC07TwoConnections: framing is a function of each connection's own byte stream: what was
+// left unfinished on a connection that died (a packet cut short) has no influence on how the
+// stream of the next connection is cut into packets.
+func VerifC07TwoConnections() {
+	protocol.SetMaxPackageLength(16)
+	adp := &AdapterProxy{servantProxy: &ServantProxy{proto: &protocol.TarsProtocol{}}}
+	s1 := vapi.Bytes("s1", vapi.Len("n1", 6))
+	s2 := vapi.Bytes("s2", vapi.Len("n2", 6))
+	got1, _ := c07Feed(adp, s1, false) // connection 1 ends here (possibly in the middle of a packet)
+	got2, err2 := c07Feed(adp, s2, true)
+	want1, want2 := c07RefPkts(s1, 16), c07RefPkts(s2, 16)
+	vapi.Check(len(got1) == len(want1), "first connection: number of packets handed to the protocol layer")
+	if !err2 {
+		vapi.Check(len(got2) == len(want2), "second connection: number of packets is determined by its own stream only")
+		for i := range want2 {
+			if i < len(got2) {
+				vapi.Check(vapi.BytesEq(got2[i], want2[i]), "second connection: packet bytes and boundaries")
+			}
+		}
+	}
+	vapi.Reach("c07-two-connections")
+}
